@@ -3,6 +3,8 @@ import FractopoModel.Props.C05
 import FractopoModel.Generated.LengthFilters
 import FractopoModel.Generated.SnapConstants
 import FractopoModel.Lemmas.SnapLoop
+import FractopoModel.Lemmas.PipelineSnap
+import FractopoModel.Lemmas.SnapStage
 /-!
 # C01 — extracted topology equals the exact planar arrangement
 
@@ -192,5 +194,50 @@ example :
                         [⟨7, .endFree⟩, ⟨6, .endAbut⟩]]
     WellFormed cs = true ∧ Topo.mult (toBranches cs) 5 = 4 ∧ Topo.mult (toBranches cs) 6 = 3 := by
   decide
+
+/-! ### the regenerated orchestration of `branches_and_nodes` -/
+
+section Pipeline
+variable {A U N : Type}
+
+/-- **What `branches_and_nodes` computes, stage by stage.** The orchestration is regenerated whole (`Gen.branches_and_nodes`), its
+snapping pass is the regenerated `snap_traces` with all its regenerated callees. For every input, either candidate order of the
+spatial index, distance parameters obeying the threshold laws, and the fuel `allowed_loops + 2` (never exhausted):
+
+* the trace list is prepared first -- duplicates removed, non-LineStrings dropped, and, unless `already_clipped`, cropped to the
+  target areas (and filtered again) BEFORE any snapping; `already_clipped` is read nowhere else;
+* the snapping stage on that list is the model loop `SnapL.snapLoop` over the flattened polygons of the areas, with its
+  `RecursionError` / `ValueError`s propagating unchanged;
+* the snapped traces are then filtered by length (> 2.01 t), noded, dispatched on the type of the noding result (TypeError
+  otherwise), the pieces filtered by length (> 1.01 t), and the node table and branch labels computed from exactly those pieces. -/
+theorem C01_generated_pipeline (ord : SnapL.Ord) (dedupe : List Polyline → List Polyline) (polys_of : A → List Polygon) (is_ls : Polyline → Bool)
+    (crop : List Polyline → List A → List Polyline) (len : Polyline → Rat) (union_all : List Polyline → U) (u_is_multi u_is_line : U → Bool)
+    (u_parts : U → List Polyline) (node_table : List Polyline → List A → Rat → List N × List String)
+    (branch_labels : List Polyline → List N → List String → Rat → List String)
+    (dist : Pt → Polyline → Rat) (bdist : Pt → Polygon → Rat) (t : Rat)
+    (hdist : ∀ ep l, decide (dist ep l < t) = SnapL.near t ep l)
+    (hbd : ∀ ep (pg : Polygon), decide (bdist ep pg < t) = decide (pg.boundaryDist2 ep < t * t))
+    (traces : List Polyline) (areas : List A) (allowed : Nat) (clipped : Bool) :
+    Gen.branches_and_nodes dedupe polys_of is_ls crop
+        (fun tr thr polys => Gen.snap_traces SnapStageL.boundsE (SnapStageL.indexE ord) SnapStageL.simpleSnapG SnapL.ends bdist dist (fun ep l => SnapL.onLine ep l)
+          (fun l ep th => Snap.insertGeo l ep th) tr thr (some polys))
+        len union_all u_is_multi u_is_line u_parts node_table branch_labels traces areas t allowed clipped (allowed + 2)
+      = match SnapL.snapLoop ord t (t * 20) ((areas.map polys_of).flatMap id) allowed (Pipeline.prepared dedupe is_ls crop traces areas clipped) with
+        | .error e => .error e
+        | .ok (snapped, _) => Pipeline.finish len union_all u_is_multi u_is_line u_parts node_table branch_labels areas t snapped := by
+  rw [Pipeline.generated_pipeline]
+  have hpass : (fun x => Gen.snap_traces SnapStageL.boundsE (SnapStageL.indexE ord) SnapStageL.simpleSnapG SnapL.ends bdist dist (fun ep l => SnapL.onLine ep l)
+      (fun l ep th => Snap.insertGeo l ep th) x t (some ((areas.map polys_of).flatMap id)))
+      = SnapL.snapPass ord t (t * 20) ((areas.map polys_of).flatMap id) := by
+    funext x
+    exact SnapStageL.generated_snap_traces ord t _ x dist bdist hdist hbd
+  have hst := Pipeline.stage_eq_snapLoop ord t (t * 20) ((areas.map polys_of).flatMap id) allowed (Pipeline.prepared dedupe is_ls crop traces areas clipped)
+  rw [← hpass] at hst
+  rw [hst]
+  cases SnapL.snapLoop ord t (t * 20) ((areas.map polys_of).flatMap id) allowed (Pipeline.prepared dedupe is_ls crop traces areas clipped) with
+  | error e => rfl
+  | ok r => rfl
+
+end Pipeline
 
 end C01
